@@ -583,6 +583,46 @@ pub fn check_task(c: &TaskCase) -> Outcome {
     o
 }
 
+/// Pure level (fuzz target fz_frames): one Frame::parse call on a buffer. Only one-directional, refactoring-safe
+/// consequences are asserted: no panic; if a frame is returned it is the reference decoder's first frame and the
+/// cursor stands at its end; a buffer the reference decodes to a complete known first frame is not rejected.
+pub fn check_parse_bytes(data: &[u8]) -> Outcome {
+    use rdest::verif::Frame;
+    let mut o = Outcome::new();
+    o.nontrivial = true;
+    let d = wire::decode(data);
+    let r = catch(|| {
+        let mut crs = std::io::Cursor::new(data);
+        let r = Frame::parse(&mut crs);
+        (r.map(|f| frame_to_r(&f)), crs.position() as usize)
+    });
+    match r {
+        Err(p) => o.fail(format!("parse-{}", panic_signature(&p)), format!("Frame::parse panicked: {}", p)),
+        Ok((Ok(f), pos)) => match d.frames.first() {
+            Some((rf, end)) => {
+                if &f != rf || pos != *end {
+                    o.fail("parse-differs-from-reference", format!("Frame::parse returned {} ending at {}, reference {} ending at {}", f.short(), pos, rf.short(), end));
+                }
+            }
+            None => {
+                if !matches!(d.tail, Tail::Ambiguous { .. }) {
+                    o.fail("parse-returns-frame-from-incomplete-or-malformed-bytes", format!("Frame::parse returned {} but the reference sees {:?}", f.short(), d.tail));
+                }
+            }
+        },
+        Ok((Err(e), _)) => {
+            if let Some((rf, _)) = d.frames.first() {
+                let unknown = matches!(rf, RFrame::Unknown(..));
+                let incomplete_or_unknown = matches!(e, rdest::Error::UnknownId(_));
+                if !unknown && !incomplete_or_unknown {
+                    o.fail("parse-rejects-complete-valid-frame", format!("Frame::parse failed with {:?} on a buffer starting with the complete frame {}", e, rf.short()));
+                }
+            }
+        }
+    }
+    o
+}
+
 fn decoder_panic_signature(p: &str) -> String {
     if p.contains("cannot advance past") || p.contains("advance out of bounds") {
         "decoder-panic-advance-past-buffer".to_string()
